@@ -92,3 +92,158 @@ def check_C05(sc, v, tier, seed, replay):
     def key(r, e):
         return "Derive:%s:%s" % (e.get("cls", ""), r["why"].split(" differs")[0])
     _reject_to_violation(v, rejects, key)
+
+
+def _group_chunks(path, outdir, prefix, nchunks, start_ev="Start"):
+    """Split a trace of several histories (each beginning with a Start event) into chunk files of whole histories."""
+    hists, cur = [], []
+    for l in open(path).read().splitlines():
+        if json.loads(l)["ev"] == start_ev and cur:
+            hists.append(cur)
+            cur = []
+        cur.append(l)
+    if cur:
+        hists.append(cur)
+    hists.sort(key=len, reverse=True)
+    n = max(1, min(nchunks, len(hists)))
+    bins = [[] for _ in range(n)]
+    for h in hists:
+        min(bins, key=lambda b: sum(len(x) for x in b)).append(h)
+    out = []
+    for i, b in enumerate(bins):
+        p = os.path.join(outdir, "%s-%03d.ndjson" % (prefix, i))
+        lines = [l for h in b for l in h]
+        open(p, "w").write("\n".join(lines) + "\n")
+        out.append((p, lines))
+    return out
+
+
+def _validate_chunks(sc, v, module, chunks, timeout=1500):
+    import concurrent.futures as cf
+    import shutil
+
+    def one(c):
+        d = sc.specdir()
+        r = vlib.run_tlc(d, module, vlib.cfg_text({"TracePath": c[0]}, post="Consumed"), timeout=timeout)
+        shutil.rmtree(d, ignore_errors=True)
+        return r
+    with cf.ThreadPoolExecutor(max_workers=vlib.NCPU) as ex:
+        results = list(ex.map(one, chunks))
+    rejects = []
+    for r, c in zip(results, chunks):
+        if not r.ok:
+            raise HarnessError("trace validation did not complete for %s: %s" % (module, r.error))
+        for rj in r.rejects:
+            a = dict(rj)
+            a["event"] = json.loads(c[1][rj["line"] - 1])
+            rejects.append(a)
+    v.add_tlc(results)
+    v.traces += sum(1 for c in chunks for l in c[1] if '"ev":"Start"' in l)
+    return rejects
+
+
+# ------------------------------------------------------------------------------------------------
+# C06  uplink NAS protection over histories
+# ------------------------------------------------------------------------------------------------
+def check_C06(sc, v, tier, seed, replay):
+    # (1) design level: exhaustive model checking of the envelope with small counter widths
+    d = sc.specdir()
+    cfg = open(os.path.join(vlib.SPEC, "MCNasSec.cfg")).read()
+    r = vlib.run_tlc(d, "MCNasSec", cfg, timeout=900, workers=vlib.NCPU, heap="8g")
+    if not r.ok:
+        raise HarnessError("MCNasSec: the specification itself violates its invariants or TLC failed: " + r.error)
+    v.add_tlc([r])
+    v.extra["mc_nassec_distinct_states"] = r.distinct
+    # (2) binding: recorded uplink histories
+    sc.build(["rec-nassec"])
+    trace = os.path.join(sc.work, "nassec.ndjson")
+    sc.run("rec-nassec", ["-seed", seed, "-tier", tier, "-out", trace])
+    chunks = _group_chunks(trace, sc.work, "nassec", vlib.NCPU)
+    rejects = _validate_chunks(sc, v, "TraceNasSec", chunks)
+    evs = [json.loads(l) for c in chunks for l in c[1]]
+    encs = [e for e in evs if e["ev"] == "Enc"]
+    v.evaluations += len(encs)
+    for e in encs:
+        v.distinct.add(canon([e["hist"], e["step"]]))
+    v.samples = encs[:2]
+    v.rule = ("seeded send histories through the real protection entry point: algorithm pairs {NIA1,NIA2}x{NEA0,NEA1,NEA2}, start COUNTs 0 / "
+              "near the sequence-number wrap / near 2^16 / 2^24-5, new-context resets at chosen positions, header types 1..4, "
+              "no-context sends interleaved, plain messages from the real 5GMM/5GSM constructors; distinct = (history, step)")
+    v.assumptions = ["NasSec.tla is the TS 24.501 4.4.3-4.4.5 envelope; MCNasSec checks it exhaustively for small widths",
+                     "NasAlg.tla as in C07"]
+
+    def key(r, e):
+        return "Enc:hdr%s:enc%s:%s" % (e.get("hdr"), _alg_of(evs, e), r["why"].split(":")[0][:60])
+    _reject_to_violation(v, rejects, key)
+
+
+def _alg_of(evs, e):
+    for s in evs:
+        if s["ev"] == "Start" and s["hist"] == e.get("hist"):
+            return "%d/int%d" % (s["enc"], s["int"])
+    return "?"
+
+
+# ------------------------------------------------------------------------------------------------
+# C10  downlink NAS recovered exactly (generate -> replay -> validate)
+# ------------------------------------------------------------------------------------------------
+def check_C10(sc, v, tier, seed, replay):
+    import concurrent.futures as cf
+    import random
+    import shutil
+    rnd = random.Random(seed * 7919 + 10)
+    sc.build(["rec-nassec"])
+    r = sc.run("rec-nassec", ["dlmsgs", seed, 60])
+    msgs = json.loads(r.stdout.strip().splitlines()[-1])
+    pairs = [(0, 2), (1, 2), (2, 2), (0, 1), (1, 1), (2, 1)]
+    nh, steps = (8, 24) if tier == "quick" else (24, 200)
+    lines, idn = [], 0
+    for h in range(nh):
+        enc, integ = pairs[h % 6]
+        dl0 = rnd.choice([0, 0, 250, 65530, (1 << 24) - 6, rnd.randrange(1 << 24)])
+        lines.append({"ev": "Start", "id": idn, "hist": h, "enc": enc, "int": integ,
+                      "kenc": [rnd.randrange(256) for _ in range(16)], "kint": [rnd.randrange(256) for _ in range(16)], "dl": dl0, "ul": 0})
+        idn += 1
+        for s in range(steps):
+            x = rnd.random()
+            hdr = 2 if x < 0.6 else 1 if x < 0.75 else 0 if x < 0.85 else 3 if x < 0.93 else 4
+            if s == 0 and dl0 == 0:
+                hdr = 3      # Security Mode Command opens a fresh context
+            skip = rnd.choice([0, 0, 0, 1, 16, 254])
+            lines.append({"ev": "Msg", "id": idn, "hist": h, "hdr": hdr, "skip": skip, "plain": rnd.choice(msgs)})
+            idn += 1
+    skel = os.path.join(sc.work, "dlskel.ndjson")
+    open(skel, "w").write("\n".join(json.dumps(x) for x in lines) + "\n")
+    chunks = _group_chunks(skel, sc.work, "dlskel", vlib.NCPU)
+
+    def gen(c):
+        d = sc.specdir()
+        outp = c[0].replace("dlskel", "dlcases")
+        r = vlib.run_tlc(d, "GenNasDl", vlib.cfg_text({"TracePath": c[0], "OutPath": outp}, post="Consumed"), timeout=1500)
+        shutil.rmtree(d, ignore_errors=True)
+        if not r.ok:
+            raise HarnessError("GenNasDl failed: " + r.error)
+        return outp, r
+    with cf.ThreadPoolExecutor(max_workers=vlib.NCPU) as ex:
+        gens = list(ex.map(gen, chunks))
+    v.add_tlc([g[1] for g in gens])
+    obs_chunks = []
+    for outp, _ in gens:
+        obsp = outp.replace("dlcases", "dlobs")
+        sc.run("rec-nassec", ["-replay", outp, "-out", obsp])
+        obs_chunks.append((obsp, open(obsp).read().splitlines()))
+    rejects = _validate_chunks(sc, v, "TraceNasSec", obs_chunks)
+    evs = [json.loads(l) for c in obs_chunks for l in c[1]]
+    decs = [e for e in evs if e["ev"] == "Dec"]
+    v.evaluations += len(decs)
+    for e in decs:
+        v.distinct.add(canon([e["hist"], e["id"]]))
+    v.samples = decs[:2]
+    v.rule = ("downlink histories generated by the specification's AMF (GenNasDl: NasSec!Protect with DIRECTION=downlink): header types 0..4, "
+              "sequence-number steps {1,2,17,255}, start COUNTs 0 / near the SQN wrap / near 2^16 / near 2^24, new-context resets (types 3/4), "
+              "algorithm pairs {NIA1,NIA2}x{NEA0,NEA1,NEA2}; replayed through tglib.NASDecode; distinct = (history, message)")
+    v.assumptions = ["plain downlink messages are hand-written TS 24.501 encodings that the library codec round-trips (C08 covers the codec)"]
+
+    def key(r, e):
+        return "Dec:hdr%s:enc%s:%s" % (e.get("hdr"), _alg_of(evs, e), r["why"][:50])
+    _reject_to_violation(v, rejects, key)
